@@ -459,6 +459,8 @@ func checkStep(r *Real, t *Table, ref *refState, op Op, obs, prev *StepObs, tips
 		if nb.Name == b && expObjsSet && !EqInts(live, expObjs) {
 			fail("oracle", fmt.Sprintf("%s:objects:%s", P, op.Kind), fmt.Sprintf("after %s branch b%d has objects %v, expected %v", op, nb.Name, live, expObjs), step)
 		}
+		// the lister (`:objects`) hands the objects over ordered by range start
+		listerWhat, listerEmpty := listerCheck(t, r.Cfg, nb)
 		// unfiltered scan in pool-key order, null/missing largest
 		for j := 1; j < len(nb.Scan); j++ {
 			c := KeyCmp(t.Vals[nb.Scan[j-1]].Key, t.Vals[nb.Scan[j]].Key)
@@ -469,13 +471,17 @@ func checkStep(r *Real, t *Table, ref *refState, op Op, obs, prev *StepObs, tips
 				key := fmt.Sprintf("%s:scan-order", P)
 				if r.Cfg.Key == "this" {
 					key = "C14:this-key:scan-order"
+				} else if (listerWhat != "" && listerEmpty) || emptyBytesHazard(r.Cfg, nb) {
+					// the objects reached the slicer out of range-start order (0 / "" / null range
+					// starts, see listerCheck): partitions are then cut in the wrong place
+					key = "C14:lister-order:empty-bytes-key"
 				}
 				fail("oracle", key, fmt.Sprintf("after %s scan of b%d is out of pool-key order at %d: %s then %s", op, nb.Name, j, t.Vals[nb.Scan[j-1]].Text, t.Vals[nb.Scan[j]].Text), step)
 				break
 			}
 		}
 		// the lister (`:objects`) hands the objects over ordered by range start
-		if what, emptyBytes := listerCheck(t, r.Cfg, nb); what != "" && r.Cfg.Key != "this" {
+		if what, emptyBytes := listerWhat, listerEmpty; what != "" && r.Cfg.Key != "this" {
 			key := fmt.Sprintf("%s:lister-order", P)
 			if emptyBytes {
 				// range starts whose zcode bytes are both empty (int64 0, "", null): lessFunc
@@ -666,6 +672,31 @@ func listerCheck(t *Table, cfg Cfg, b *BranchObs) (what string, emptyBytes bool)
 	return "", false
 }
 
+// emptyBytesHazard: two objects of the branch have different range starts (min ascending / max
+// descending) that both have empty zcode bytes (int64 0, "", null): lessFunc is then not
+// asymmetric for them and their order in the lister follows Go map iteration.
+func emptyBytesHazard(cfg Cfg, b *BranchObs) bool {
+	empty := func(k string) bool { return k == "i0" || k == "s-" || k == "n" }
+	var starts []string
+	for _, o := range b.Objs {
+		k := o.Min
+		if cfg.Desc {
+			k = o.Max
+		}
+		if empty(k) {
+			starts = append(starts, k)
+		}
+	}
+	for i := range starts {
+		for j := i + 1; j < len(starts); j++ {
+			if KeyCmp(starts[i], starts[j]) != 0 {
+				return true
+			}
+		}
+	}
+	return false
+}
+
 // seekCheck: the seek index entries partition the object's values (val_off / val_cnt chain
 // from 0 to count, no empty entry) and every entry's [min,max] is exactly the key range of the
 // values it covers.
@@ -770,6 +801,9 @@ func checkDeterminism(r *Real, t *Table, obs *StepObs, opt Options, step int, fa
 			if EqInts(t.CanonTies(s), t.CanonTies(seqs[0])) {
 				// only the order among values of equal pool key differs
 				key = "C14:scan:tie-order:equal-keys"
+			} else if emptyBytesHazard(r.Cfg, nb) && EqInts(ms(s), ms(seqs[0])) {
+				// the lister order of objects with 0 / "" / null range starts follows Go map order
+				key = "C14:lister-order:empty-bytes-key"
 			}
 			fail("oracle", key, fmt.Sprintf("the same unfiltered scan of b%d returned [%s] and then [%s]", nb.Name, strings.ReplaceAll(strings.TrimSpace(t.Texts(seqs[0])), "\n", " "), strings.ReplaceAll(strings.TrimSpace(t.Texts(s)), "\n", " ")), step)
 			return
@@ -846,9 +880,15 @@ func CompareModel(c *hlib.Ctx, o *Outcome, opt Options, ans string) {
 		c.Fail("correspondence", opt.Prop+":model-answer", fmt.Sprintf("model answered %d steps, expected %d", len(mo), n), o.H)
 		return
 	}
+	hazard := false
 	for i := 0; i < n; i++ {
 		c.Res.ModelCases++
-		if d := CompareStep(o.T, o.Obs[i], mo[i], opt.Commits); d != "" {
+		for j := range o.Obs[i].Branches {
+			if emptyBytesHazard(o.H.Cfg, &o.Obs[i].Branches[j]) {
+				hazard = true
+			}
+		}
+		if d := CompareStep(o.T, o.H.Cfg, o.Obs[i], mo[i], opt.Commits, hazard); d != "" {
 			h := *o.H
 			h.Ops = h.Ops[:i+1]
 			c.Fail("correspondence", fmt.Sprintf("%s:model:%s", opt.Prop, o.H.Ops[i].Kind), fmt.Sprintf("step %d %s: %s | history: %s", i, o.H.Ops[i], d, h.Summary()), &h)
